@@ -516,6 +516,12 @@ HIST_DETS = [
     {"sel": [{"f": "x"}, {"g": "Ab", "f|contains": "y"}], "condition": "sel"},
     {"sel": {"Hashes": "MD5=abc", "f": "x"}, "condition": "sel"},
     {"sel": {"Hashes|contains": ["MD5=abc", "SHA1=def"]}, "condition": "sel"},
+    # the items hashes_fields creates must be written with the linking and negation of the item they replace (D37, repaired)
+    {"sel": {"Hashes|neq": "MD5=abc"}, "condition": "sel"},
+    {"sel": {"Hashes|neq": ["MD5=abc", "SHA1=def"], "f": "x"}, "condition": "sel"},
+    {"sel": {"Hashes|all": ["MD5=abc", "SHA1=def"]}, "condition": "sel"},
+    {"sel": {"Hashes|contains|all": ["MD5=abc", "MD5=cba"]}, "condition": "sel"},
+    {"sel": {"Hashes|all|neq": ["MD5=abc", "SHA1=def"]}, "condition": "sel"},
     {"sel": {"f": "x\\a"}, "sel2": {"g|contains": "ax"}, "condition": "sel and not sel2"},
     {"sel": {"f": "xa*"}, "condition": "sel"},
 ]
